@@ -30,6 +30,17 @@ pub fn poly_fn(module: &str, f: &str, a: &[&str]) -> Option<String> {
             if module == "ntt" { ntt::invntt_tomont(&mut x.coeffs) } else { poly::invntt_tomont(&mut x) }
             ok(fmt_poly(&x))
         }
+        // the raw slice interface of ntt.rs at different positions of a backing array (alignment of the caller's buffer)
+        ("ntt_off", 2) | ("invntt_tomont_off", 2) => {
+            let off: usize = a[0].parse().ok()?; let x = poly(a[1])?;
+            if off > 7 { return None; }
+            let mut backing = vec![0x55AA55i32; 256 + 8];
+            backing[off..off + 256].copy_from_slice(&x.coeffs);
+            if f == "ntt_off" { ntt::ntt(&mut backing[off..off + 256]) } else { ntt::invntt_tomont(&mut backing[off..off + 256]) }
+            let mut r = Poly::default();
+            r.coeffs.copy_from_slice(&backing[off..off + 256]);
+            ok(fmt_poly(&r))
+        }
         ("pointwise_montgomery", 2) => {
             let x = poly(a[0])?; let y = poly(a[1])?; let mut c = dirty_poly();
             poly::pointwise_montgomery(&mut c, &x, &y); ok(fmt_poly(&c))
